@@ -39,6 +39,46 @@ def proj_feature_row(r):
             "attrs": [[enc(k), [enc(v) for v in vs]] for k, vs in attrs.items()], "extra": [enc(x) for x in extra]}
 
 
+def proj_feature_obj(f):
+    """a Feature object as the API returns it -> the specification's feature record (same shape as proj_feature_row)"""
+    return {"id": enc(f.id), "seqid": enc(f.seqid), "source": enc(f.source), "ftype": enc(f.featuretype),
+            "start": -1 if f.start is None else f.start, "end": -1 if f.end is None else f.end,
+            "score": enc(f.score), "strand": enc(f.strand), "frame": enc(f.frame),
+            "attrs": [[enc(k), [enc(v) for v in list(f.attributes[k])]] for k in f.attributes.keys()], "extra": [enc(x) for x in f.extra]}
+
+
+def lookups(db, universe):
+    """GffDB!Lookup on a LIVE handle: every key of the universe is looked up (by key, and - when found - again after the returned object was
+    edited, and by Feature); returns {key: record | 'notfound' | 'raised:X'}.  The answer must be a function of the stored content alone."""
+    from gffutils.exceptions import FeatureNotFoundError
+    out = {}
+    for key in universe:
+        try:
+            g = db[key]
+            g.start = (g.start or 0) + 7            # the caller's copy is the caller's: a later look-up must not see these edits
+            g.attributes["zz_edit"] = ["q"]
+            g.source = "edited"
+            h = db[key]
+            rec = canon_feature(proj_feature_obj(h))
+            try:
+                k2 = db[h]
+                if k2.id != h.id or str(k2) != str(h):
+                    rec = "by_feature_differs"
+            except FeatureNotFoundError:
+                rec = "by_feature_notfound"
+            out[key] = rec
+        except FeatureNotFoundError:
+            out[key] = "notfound"
+        except Exception as e:  # noqa
+            out[key] = "raised:" + type(e).__name__
+    return out
+
+
+def expected_lookups(snap_feats, universe):
+    by = {dec(f["id"]): canon_feature(f) for f in snap_feats}
+    return {k: by.get(k, "notfound") for k in universe}
+
+
 def canon_feature(f):
     g = dict(f)
     g["attrs"] = sorted([[k, sorted(vs)] for k, vs in f["attrs"]])
@@ -61,9 +101,12 @@ def proj_db(conn, canon=False):
 
 
 def proj_file(path, canon=False):
+    """content of a database file through a fresh connection; a file that is not a readable gffutils database is a (comparable) observation, not an error"""
     import sqlite3
     conn = sqlite3.connect(path)
     try:
         return proj_db(conn, canon)
+    except sqlite3.DatabaseError as e:
+        return {"feats": [], "rels": [], "ctr": [], "dups": [], "dirs": [], "nmeta": -1, "unreadable": str(e)[:80]}
     finally:
         conn.close()
